@@ -139,6 +139,17 @@ def gen_history(schema, ty, rnd, n, emphasis=None):
                     ops.append({"op": "setin", "f": f["name"], "x": g["name"], "v": rnd.choice(gen.scalar_domain(g["kind"]))})
         elif emphasis == "inplace" and c < .6:
             ops.append({"op": rnd.choice(["len", "bytes", "observe"])})
+        elif emphasis == "fromdict" and c < .45:
+            # documents read into an object that already holds values: given fields replace (a repeated field is not extended)
+            kw = []
+            for f in rnd.sample(fields, min(len(fields), rnd.randint(1, 4))):
+                if f["card"] == "oneof" and any(x[0] in {g["name"] for g in mem if g["group"] == f["group"]} for x in kw):
+                    continue
+                v = rand_value(schema, f, rnd, allow_unset=False)
+                if v.get("k") == "msg" and v.get("fresh"):
+                    continue
+                kw.append([f["name"], v])
+            ops.append({"op": "fromdict_inst", "kw": kw, "nulls": rnd.random() < .3})
         elif emphasis == "unknown" and c < .45:
             # several parses into one object: what an earlier parse kept as unknown must survive the later ones
             ops.append({"op": "parse", "src": gen.rmsg(schema, ty, rnd, density=rnd.choice([0.0, 0.1, 0.3])),
@@ -150,7 +161,11 @@ def gen_history(schema, ty, rnd, n, emphasis=None):
             f = rnd.choice(msgf)
             g = rnd.choice(schema["types"][f["msg"]])
             if g["card"] == "implicit" and g["kind"] not in ("message", "map", "wrap", "timestamp", "duration"):
-                ops.append({"op": "setin", "f": f["name"], "x": g["name"], "v": rnd.choice(gen.scalar_domain(g["kind"]))})
+                if rnd.random() < .3:
+                    # m.<f>.<x> = m.<f>.<x>: the value read (possibly the lazily created default, the very same object) is assigned back
+                    ops.append({"op": "selfin", "f": f["name"], "x": g["name"]})
+                else:
+                    ops.append({"op": "setin", "f": f["name"], "x": g["name"], "v": rnd.choice(gen.scalar_domain(g["kind"]))})
         elif c < w_set + .2:
             ops.append({"op": "parse", "src": gen.rmsg(schema, ty, rnd, density=rnd.choice([0.1, 0.3])),
                         "unk": [rnd.randrange(5) for _ in range(rnd.choice([0, 0, 1, 2] if emphasis != "unknown" else [1, 1, 2, 3]))]
@@ -283,6 +298,9 @@ def run_history(schema, C, ty, ops, R=None, reread=False, dictback=False):
                 vf = dict(f, kind=f["vkind"])
                 getattr(m, op["f"])[dyn.conc_bp_single(schema, C, kf, f["kkind"], op["key"])] = \
                     C[f["msg"]]() if op["v"].get("fresh") else dyn.conc_bp_single(schema, C, vf, f["vkind"], op["v"])
+            elif k == "selfin":
+                sub = getattr(m, op["f"])
+                setattr(sub, op["x"], getattr(sub, op["x"]))
             elif k == "get":
                 getattr(m, op["f"])
             elif k == "getin":
